@@ -531,7 +531,7 @@ func performIDPRequest(log telemetry.Logger, client *http.Client, uri string, fo
 	}
 
 	bodyTokens := &idpTokensResponse{}
-	err = json.Unmarshal(respBody, &bodyTokens)
+	err = json.Unmarshal(respBody, bodyTokens)
 	if err != nil {
 		log.Error("error unmarshalling tokens response", err)
 		return nil, codes.Internal
